@@ -527,6 +527,7 @@ Proof.
   - cbn [fst]. apply inv_crash. exact HD.
   - cbn [fst]. apply inv_clean_cache; auto.
   - cbn [fst]. apply inv_age_all; auto.
+  - cbn [fst]. apply inv_build_cache; auto.
 Qed.
 
 Fixpoint srun (s : stage) (ops : list sop) : stage :=
